@@ -15,6 +15,29 @@ from harness import common, family, graphs, targets
 QUERIES = ['iterate_memo', 'iterate_basic', 'iterate_noint', 'paths_by_id', 'all_paths']
 
 
+class _Skip(Exception):
+  pass
+
+
+class Cell:
+  """A leaf (no traverser)."""
+
+  def __init__(self, i):
+    self.i = i
+
+
+class Row:
+  def __init__(self, i):
+    self.i = i
+
+
+class Grid:
+  """A node whose children exist only while it is being flattened."""
+
+  def __init__(self, n):
+    self.n = n
+
+
 class Pair2:
   """A node type registered only in a caller-supplied registry."""
 
@@ -188,6 +211,87 @@ def execute(case):
       obs['late_registration'] = [leaf_before, before_n, len(after), n_root]
   except Exception as e:
     obs['late_registration'] = f'raised {type(e).__name__}: {e}'[:200]
+  # a traversal whose function ATTACHES a new node to a part it has not reached yet: the
+  # all-paths query must also answer for that node when the walk gets there
+  try:
+    if case['seed'] % 8 != 1:
+      raise _Skip()
+    problems = []
+    for cls in (daglish.BasicTraversal, daglish.MemoizedTraversal):
+      f_ = graphs.node_fn(1, 1)
+      first, second = fdl.Config(f_, p=[4, 4]), fdl.Config(f_, p=[8, 8])
+      groot = {'layers': [first, second], 'notes': {}, 'sub': root}
+
+      def own_paths(target):
+        out = []
+
+        def walk(x, path):
+          if x is target:
+            out.append(tuple(path))
+          if isinstance(x, fdl.Buildable):
+            for k, y in fdl.ordered_arguments(x).items():
+              walk(y, path + [daglish.attr_or_index(k)])
+          elif isinstance(x, (list, tuple)):
+            for i, y in enumerate(x):
+              walk(y, path + [daglish.Index(i)])
+          elif isinstance(x, dict):
+            for k, y in x.items():
+              walk(y, path + [daglish.Key(k)])
+        walk(groot, [])
+        return sorted(map(daglish.path_str, out))
+
+      def visit(value, state, first=first, second=second, groot=groot):
+        if state.is_traversable(value) and (value is second.__arguments__.get('q') or value is groot['notes']
+                                            or value is first or value is second):
+          try:
+            got = sorted(daglish.path_str(p_) for p_ in state.get_all_paths())
+          except Exception as e:
+            got = f'raised {type(e).__name__}'
+          if got != own_paths(value):
+            problems.append([cls.__name__, daglish.path_str(state.current_path), got, own_paths(value)])
+        if value is first:
+          second.q = fdl.Config(f_, p=[0.5])          # a brand new node, reached later
+          groot['notes']['filled'] = ['second.q']
+        for _ in state.yield_map_child_values(value, ignore_leaves=True):
+          pass
+      visit(groot, cls(visit, groot).initial_state())
+    obs['attached_during_traversal'] = problems[:3] or True
+  except _Skip:
+    pass
+  except Exception as e:
+    obs['attached_during_traversal'] = f'raised {type(e).__name__}: {e}'[:200]
+  # a registered node type whose flatten makes its children on the fly (temporaries that nothing
+  # else keeps alive): every one of them is a distinct object and must be visited
+  try:
+    if case['seed'] % 8:
+      raise _Skip()
+    n_cells = 150
+    grid_reg = daglish.NodeTraverserRegistry(use_fallback=True)
+    grid_reg.register_node_traverser(
+        Grid, flatten_fn=lambda g: (tuple(Row(i) for i in range(g.n)), g.n),
+        unflatten_fn=lambda values, n: Grid(n),
+        path_elements_fn=lambda g: tuple(daglish.Index(i) for i in range(g.n)))
+    # each row makes its one cell when flattened; nothing refers to the cell afterwards
+    grid_reg.register_node_traverser(
+        Row, flatten_fn=lambda row: ((Cell(row.i),), row.i),
+        unflatten_fn=lambda values, i: Row(i),
+        path_elements_fn=lambda row: (daglish.Attr('cell'),))
+    seen_vals = [v.i for v, _ in daglish.iterate([Grid(n_cells), root], registry=grid_reg) if isinstance(v, Cell)]
+    visited = []
+
+    def visit(v, state):
+      if isinstance(v, Cell):
+        visited.append(v.i)
+      return state.map_children(v) if state.is_traversable(v) else v
+    grid_root = [Grid(n_cells)]
+    daglish.MemoizedTraversal(visit, grid_root, registry=grid_reg).initial_state().map_children(grid_root)
+    obs['temporaries'] = (sorted(seen_vals) == list(range(n_cells)) and sorted(visited) == list(range(n_cells)))
+    if obs['temporaries'] is not True:
+      obs['temporaries'] = [len(seen_vals), len(visited)]
+  except _Skip:
+    pass
+  except Exception as e:
+    obs['temporaries'] = f'raised {type(e).__name__}: {e}'[:200]
   # legacy API: identity traversal and paths
   try:
     # traverse_with_path rebuilds without preserving sharing (documented); memoized_traverse
@@ -298,6 +402,12 @@ def oracle(case, real):
               'path': path, 'observed': allp, 'expected': expect}
   if real.get('registry_basic_complete') is False:
     return {'what': 'un-memoized traversal with a caller-supplied registry does not report every path'}
+  if real.get('attached_during_traversal', True) is not True:
+    return {'what': 'the all-paths query fails / is wrong for a node attached earlier in the same traversal',
+            'observed': real['attached_during_traversal']}
+  if real.get('temporaries', True) is not True:
+    return {'what': 'memoized traversal over children created on the fly by a registered flatten does not '
+            'visit every distinct object exactly once', 'observed': real['temporaries']}
   if real.get('late_registration', True) is not True:
     return {'what': 'a node type registered after a first lookup is not traversed by a registry that falls '
             'back on the registry it was registered in', 'observed': real['late_registration']}
